@@ -105,6 +105,12 @@ Findings on the tree as first read (all reproduced on the real code; witnesses i
   is theorem C02_function_experimental_ir9, the model describes the rest and the tie checks it).  348a4f1 (prefix
   matching against the existing functions, all overloads) is followed by model (strip_prefix/exp_entries), oracle
   and generator (separators inside domain / function names).
+  Round-6 seeded changes: r6m1 (repeated graph outputs dropped) and r6m3 (graph output inherits the doc string of a
+  value_info entry) were missed because wf excludes both inputs; they are now oracle-judged streams ('repeated-output',
+  'output-with-value-info', also compared model-vs-implementation).  r6m2 (annotation popped from value.meta: a second
+  to_proto of the same IR loses it) is caught by serializing every deserialized IR twice (impl_roundtrip.last_twice).
+  New finding (known, proposed_fixes/C02-quantization-annotation-repeated-output.diff): a value listed twice in
+  graph.output gets its quantization annotation twice.
   Upstream fixes 5e4600e (nodes of nested graphs follow the model's IR-version gate: ser_graph passes irv down,
   wf_graph's allow_dev now covers nested graphs) and 3a09e57 (a repeated initializer name: only the last tensor is
   used — `last_only`, after all tensors are deserialized) landed after the proof was finished: model, wf, generator
@@ -415,14 +421,26 @@ def impl_roundtrip(kind: str, p):
     from onnx_ir import serde
     p2 = type(p)()
     p2.CopyFrom(p)
+    impl_roundtrip.last_twice = None
     try:
         if kind == "vinfo":
-            q = serde.serialize_value(serde.deserialize_value_info_proto(p2, None))
+            obj = serde.deserialize_value_info_proto(p2, None)
+            q = serde.serialize_value(obj)
+            q2 = serde.serialize_value(obj)
         else:
-            q = ir.to_proto(ir.from_proto(p2))
+            obj = ir.from_proto(p2)
+            q = ir.to_proto(obj)
+            q2 = ir.to_proto(obj)        # serializing the same IR object again must give the same proto
+        if q2 != q:
+            d = tree_diff(canon(q), canon(q2))
+            impl_roundtrip.last_twice = ["second to_proto of the same IR object differs from the first: "
+                                         + (d[0] if d else "only outside the normalisation")]
         return ("ok", q)
     except Exception as e:  # noqa: BLE001
         return ("raise", type(e).__name__)
+
+
+impl_roundtrip.last_twice = None
 
 
 # =========================================================================== oracle: norm-aware field diff
@@ -587,9 +605,44 @@ def tree_diff(a, b, path="", out=None, limit=8):
     return out
 
 
+def all_graphs(msg):
+    """Every GraphProto inside a model / graph / function / attribute proto."""
+    name = msg.DESCRIPTOR.name
+    if name == "ModelProto":
+        yield from all_graphs(msg.graph)
+        for f in msg.functions:
+            for n in f.node:
+                for a in n.attribute:
+                    yield from all_graphs(a)
+    elif name == "GraphProto":
+        yield msg
+        for n in msg.node:
+            for a in n.attribute:
+                yield from all_graphs(a)
+    elif name == "AttributeProto":
+        if msg.HasField("g"):
+            yield from all_graphs(msg.g)
+        for g in msg.graphs:
+            yield from all_graphs(g)
+    elif name == "FunctionProto":
+        for n in msg.node:
+            for a in n.attribute:
+                yield from all_graphs(a)
+
+
+def has_repeated_outputs(p) -> bool:
+    try:
+        return any(len({o.name for o in g.output}) < len(g.output) for g in all_graphs(p))
+    except Exception:  # noqa: BLE001
+        return False
+
+
 def oracle_diff(p, q) -> list[str]:
     """Differences between p and q = to_proto(from_proto(p)) beyond the documented normalisation."""
-    return tree_diff(canon(p), canon(q))
+    d = tree_diff(canon(p), canon(q))
+    if d and all("/quantization_annotation" in x for x in d) and has_repeated_outputs(p):
+        d = ["[repeated-output] " + x for x in d]
+    return d
 
 
 def oracle_case(kind: str, p) -> list[str]:
@@ -597,7 +650,7 @@ def oracle_case(kind: str, p) -> list[str]:
     st, q = impl_roundtrip(kind, p)
     if st != "ok":
         return [f"round trip raised {q}"]
-    return oracle_diff(p, q)
+    return oracle_diff(p, q) + (impl_roundtrip.last_twice or [])
 
 
 # =========================================================================== generator
@@ -1122,6 +1175,52 @@ def model_experimental_ir9(g: "Gen"):
     return m
 
 
+def model_output_variants(g: "Gen"):
+    """Supported-by-oracle variants of a well-formed model (outside wf, inside the property):
+    'repeated-output'  a graph or subgraph lists one of its outputs twice (same entry);
+    'output-with-value-info'  a node output that is a graph output also has a value_info entry (doc string and type,
+                       no metadata) while its output entry has no doc string: the entry must not leak into the output."""
+    import onnx
+    out = []
+    for tag in ("repeated-output", "output-with-value-info"):
+        for _ in range(30):
+            m = g.model()
+            graphs = [x for x in all_graphs(m) if len(x.output)]
+            if tag == "output-with-value-info":
+                graphs = [x for x in graphs
+                          if any(o.name in {y for n in x.node for y in n.output} for o in x.output)]
+            if graphs:
+                break
+        else:
+            continue
+        gr = g.r.choice(graphs)
+        if tag == "repeated-output":
+            o = g.r.choice(list(gr.output))
+            # (an annotated repeated output is the recorded finding quantization-annotation-repeated-output)
+            keep = [qa for qa in gr.quantization_annotation if qa.tensor_name != o.name]
+            del gr.quantization_annotation[:]
+            gr.quantization_annotation.extend(keep)
+            dup = onnx.ValueInfoProto()
+            dup.CopyFrom(o)
+            pos = g.r.randrange(len(gr.output) + 1)
+            outs = list(gr.output)
+            outs.insert(pos, dup)
+            del gr.output[:]
+            gr.output.extend(outs)
+        else:
+            produced = {y for n in gr.node for y in n.output}
+            o = g.r.choice([x for x in gr.output if x.name in produced])
+            o.ClearField("doc_string")
+            vi = gr.value_info.add()
+            vi.name = o.name
+            vi.doc_string = "doc of the value_info entry"
+            if g.chance(0.7):
+                vi.type.CopyFrom(o.type)
+        g.h("model:" + tag)
+        out.append((tag, m))
+    return out
+
+
 MUTATIONS = ["dup-metadata-key", "vinfo-names-input", "unresolved-input", "checksum", "function-input-vinfo",
              "quant-passthrough", "seq-no-elem", "map-type", "tensor-no-elem", "sparse-attr", "undefined-attr",
              "devconf-old-ir", "function-vinfo-old-ir", "dup-opset", "output-not-produced", "dup-attr",
@@ -1347,7 +1446,8 @@ def make_case(kind: str, p, supported: bool) -> dict | None:
             impl = ("raise", f"converter:{e}")
     else:
         impl = ("raise", q)
-    return {"kind": kind, "proto": p, "term_p": term_p, "impl": impl, "impl_q": q if st == "ok" else None,
+    twice = impl_roundtrip.last_twice
+    return {"kind": kind, "proto": p, "term_p": term_p, "impl": impl, "impl_q": q if st == "ok" else None, "twice": twice,
             "supported": supported}
 
 
@@ -1429,6 +1529,17 @@ def known_witnesses() -> dict:
     n = f.node.add(op_type="If", output=["y"])
     n.attribute.add(name="then_branch", ref_attr_name="body", type=onnx.AttributeProto.GRAPH)
     w["ref-graph-attr-crash"] = ("model", m)
+    # a value listed twice in graph.output gets its quantization annotation twice
+    g2 = onnx.GraphProto(name="g")
+    g2.node.add(op_type="Relu", input=[], output=["y"])
+    for _ in range(2):
+        o = g2.output.add()
+        o.name = "y"
+        o.type.tensor_type.elem_type = 1
+    qa2 = g2.quantization_annotation.add()
+    qa2.tensor_name = "y"
+    qa2.quant_parameter_tensor_names.add(key="SCALE_TENSOR", value="s")
+    w["quantization-annotation-repeated-output"] = ("graph", g2)
     # (fixed 66aa20a) proto-backed tensor metadata was emitted twice
     t = onnx.TensorProto(name="t", data_type=1, dims=[1])
     t.float_data.append(1.0)
@@ -1447,6 +1558,8 @@ def classify_known(diffs: list[str]) -> str | None:
     """Map oracle differences to the key of a recorded finding (by site), else None."""
     if diffs and all("/functions[" in d and "/value_info" in d for d in diffs):
         return "function-input-value-info-dropped"
+    if diffs and all(d.startswith("[repeated-output] ") for d in diffs):
+        return "quantization-annotation-repeated-output"
     if diffs and all("/quantization_annotation" in d for d in diffs):
         return "quantization-annotation-duplicated"
     if diffs and all("/external_data" in d for d in diffs):
@@ -1634,6 +1747,15 @@ def gen_cases(ck, n_models: int) -> dict[str, list[dict]]:
                     c["mutation"] = f"{mk}@ir{irv}"
                     by_kind["model"].append(c)
                     ck.hist("unsupported_stream", f"{mk}@ir{irv}")
+    # repeated graph outputs / value_info naming a graph output (oracle-judged)
+    for _ in range(max(8, n_models // 20)):
+        for tag, m2 in model_output_variants(g):
+            c = make_case("model", m2, False)
+            if c:
+                c["oracle_supported"] = True
+                c["mutation"] = tag
+                by_kind["model"].append(c)
+                ck.hist("oracle_supported_stream", tag)
     # IR < 10: function values typed through the experimental main-graph value_info names (oracle-judged)
     for _ in range(max(12, n_models // 10)):
         m2 = model_experimental_ir9(g)
@@ -1804,7 +1926,7 @@ def run(ck) -> None:
                 if c["impl"][0] != "ok":
                     oracle_failures.append((kind, c, [f"round trip raised {c['impl'][1]}"]))
                 else:
-                    d = oracle_diff(c["proto"], c["impl_q"])
+                    d = oracle_diff(c["proto"], c["impl_q"]) + (c.get("twice") or [])
                     if d:
                         oracle_failures.append((kind, c, d))
         try:
